@@ -53,6 +53,8 @@ struct Plan {
     backlog: u32,
     after: u32,
     delay_pm: u64,
+    /// the queue reports to a (local) metrics recorder
+    recorder: bool,
     seed: u64,
 }
 
@@ -241,9 +243,13 @@ fn inner(plan: &Plan, phase: &AtomicU64) -> Outcome {
     let sh = StreamShared::new(plan.seed);
     sh.delay_per_mille.store(plan.delay_pm, Ordering::Relaxed);
     let total = (plan.clients * plan.per + plan.racers * 4000 + plan.backlog + plan.after + 16) as usize;
-    let builder = BackgroundQueueBuilder::new()
+    let mut builder = BackgroundQueueBuilder::new()
         .capacity(total.max(4)) // never overflows
         .flush_interval(Duration::from_micros(plan.flush_us));
+    if plan.recorder {
+        let counts = Arc::new(checks::recorder::Counts::default());
+        builder = builder.metrics_recorder_local::<dyn metrics::Recorder, _>(checks::recorder::CountingRecorder(counts));
+    }
     // `handle_drop` performs the drop under test
     let (q, handle_drop): (Q, Box<dyn FnOnce(bool) + Send>) = match plan.kind {
         Kind::Typed => {
@@ -447,9 +453,15 @@ fn gen_plan(rng: &mut Rng, lane: u64, thorough: bool) -> Plan {
         clone_pm: *rng.pick(&[0u64, 100, 400]),
         forget: rng.below(3) == 0,
         gate,
-        backlog: 1 + rng.below(40) as u32,
+        // mostly small; now and then far more than any batch size inside the writer
+        backlog: if gate == GateMode::HoldNext && rng.below(if thorough { 8 } else { 12 }) == 0 {
+            *rng.pick(&[5_000u32, 9_000, 20_000, 70_000])
+        } else {
+            1 + rng.below(40) as u32
+        },
         after: rng.below(6) as u32,
         delay_pm: *rng.pick(&[0u64, 0, 300]),
+        recorder: rng.below(3) == 0,
         seed: rng.next_u64(),
     }
 }
@@ -510,6 +522,7 @@ fn tiny_main(args: &Args, rep: &Report) {
         backlog: 2,
         after: 1,
         delay_pm: 200,
+        recorder: v % 5 == 2,
         seed: args.seed + v,
     };
     rep.eval();
